@@ -4,7 +4,8 @@ round-trip laws of the property, on messages built through the public API."""
 import bz2, calendar, hashlib, inspect, os, resource, shutil, tempfile, zlib
 from datetime import datetime, timezone, timedelta
 
-from .common import Driver, hx, unhx, hn, unhn, outcome, load_repo
+import signal
+from .common import Driver, DriverError, hx, unhx, hn, unhn, outcome, load_repo
 from . import keys as keypool
 
 # witnesses of repaired defects (known_findings.json kind=fixed): run first in every tier, any recurrence is a plain violation
@@ -59,6 +60,54 @@ def o_decompress(a, d):
     if alg == 2: return hx(zlib.decompress(data))
     if alg == 3: return hx(bz2.decompress(data))
     raise ValueError(alg)
+
+
+class GuardedDriver(Driver):
+    """Model driver that can never hang or exhaust the machine: a damaged header may announce gigabytes, which the extracted
+    model (unary nat) cannot enumerate.  Address space is capped for the child, every call has a deadline; a driver that
+    dies or overruns is restarted and the call answers 'MODEL-GAVE-UP' (a value that never equals an implementation answer)."""
+    AS_LIMIT = 12 << 30
+
+    def __init__(self, name, oracles=None):
+        self._name, self._oracles = name, oracles
+        self.gave_up = 0
+        self._spawn()
+
+    def _spawn(self):
+        try:
+            soft, hard = resource.getrlimit(resource.RLIMIT_AS)
+            lim = self.AS_LIMIT if hard == resource.RLIM_INFINITY else min(self.AS_LIMIT, hard)
+            resource.setrlimit(resource.RLIMIT_AS, (lim, hard))
+        except Exception:
+            soft = None
+        try:
+            Driver.__init__(self, self._name, self._oracles)
+        finally:
+            if soft is not None:
+                resource.setrlimit(resource.RLIMIT_AS, (soft, hard))
+
+    def call(self, *parts):
+        deadline = 30 + sum(len(str(p)) for p in parts) // 20000
+        def on_alarm(signum, frame):
+            raise TimeoutError()
+        old = signal.signal(signal.SIGALRM, on_alarm)
+        signal.setitimer(signal.ITIMER_REAL, deadline)
+        try:
+            return Driver.call(self, *parts)
+        except (TimeoutError, DriverError, BrokenPipeError):
+            signal.setitimer(signal.ITIMER_REAL, 0)
+            self.gave_up += 1
+            try:
+                self.p.kill(); self.p.wait(timeout=5)
+            except Exception:
+                pass
+            if self.gave_up > 20:
+                raise DriverError('model driver gave up on more than 20 inputs')
+            self._spawn()
+            return 'MODEL-GAVE-UP'
+        finally:
+            signal.setitimer(signal.ITIMER_REAL, 0)
+            signal.signal(signal.SIGALRM, old)
 
 
 def cps(text):
@@ -145,10 +194,12 @@ def run(ctx):
         resource.setrlimit(resource.RLIMIT_STACK, (want if hard == resource.RLIM_INFINITY else min(want, hard), hard))
     except Exception:
         pass
-    d = Driver('c20', oracles={'compress': o_compress, 'decompress': o_decompress})
+    d = GuardedDriver('c20', oracles={'compress': o_compress, 'decompress': o_decompress})
     tmp = tempfile.mkdtemp(prefix='c20_')
     try:
         _run(ctx, pgpy, d, tmp)
+        if d.gave_up:
+            ctx.notes.append('model driver gave up (deadline / memory cap) on %d inputs; each is reported as a disagreement' % d.gave_up)
     finally:
         d.close()
         shutil.rmtree(tmp, ignore_errors=True)
@@ -219,7 +270,10 @@ def expected_read_back(case):
 
 
 def read_back(m):
-    v = m.message
+    try:
+        v = m.message
+    except Exception as ex:   # an unreadable message is a value to compare, never a harness crash
+        return ('raise', type(ex).__name__)
     if isinstance(v, str): return ('text', v)
     return ('octets', bytes(v))
 
@@ -309,7 +363,7 @@ def check_export(ctx, pgpy, d, K, case, tmp, suite='export'):
     # model view of the content (contents property)
     mv = d.call('contents', hn(ord(fmt)), hx(stored))
     rbm = read_back(m)
-    iv = ('T ' + cps(rbm[1])) if rbm[0] == 'text' else ('B ' + hx(rbm[1]))
+    iv = ('T ' + cps(rbm[1])) if rbm[0] == 'text' else ('B ' + hx(rbm[1])) if rbm[0] == 'octets' else 'ERR'
     ctx.expect_eq(suite, 'message view differs from model', _small(case), iv, mv)
     return blob
 
@@ -344,12 +398,22 @@ def _small(case):
     c = dict(case)
     cc = dict(c['content'])
     if len(cc.get('hex', '')) > 400 or len(cc.get('text', '')) > 200:
-        cc = {'kind': cc['kind'], 'cls': cc.get('cls'), 'gen': cc.get('gen')}
+        cc = {'kind': cc['kind'], 'cls': cc.get('cls'), 'gen': cc.get('gen'), 'size': cc.get('size')}
     c['content'] = cc
     return c
 
 
 # ---------------------------------------------------------------- generators
+def regen_content(c, default_big=65536):
+    """rebuild a large content that was recorded as (class, generator seed, size) only"""
+    if 'hex' in c or 'text' in c or 'gen' not in c:
+        return c
+    class Fixed:
+        def __init__(self, v): self.v = v
+        def randrange(self, *a): return self.v
+    return gen_content(Fixed(c['gen']), c['cls'], c.get('size') or default_big)
+
+
 def gen_content(rng, cls, big):
     if cls == 'empty': return {'kind': 'bytes', 'hex': '', 'cls': cls}
     if cls == 'empty-str': return {'kind': 'str', 'text': '', 'cls': cls}
@@ -376,7 +440,7 @@ def gen_content(rng, cls, big):
         seed = rng.randrange(2**32)
         blk = hashlib.sha256(b'%d' % seed).digest()
         data = (blk * (big // 32 + 1))[:big // 2] + bytes((i * 7 + seed) & 255 for i in range(big // 2))
-        return {'kind': 'bytes', 'hex': data.hex(), 'cls': cls, 'gen': seed}
+        return {'kind': 'bytes', 'hex': data.hex(), 'cls': cls, 'gen': seed, 'size': big}
     if cls.startswith('far-repeat:'):
         # prose-like text over a large vocabulary in which a 1-2 kB record occurs twice, D octets apart: the compressor
         # emits a back reference of distance D (up to the 32 kB window), which short-period or random data never needs
@@ -396,10 +460,10 @@ def gen_content(rng, cls, big):
         # (zlib module: first buffer 16 KiB), so the second occurrence is placed at offset 16384 in that case
         head = 16384 - dist if dist < 16384 else g.randrange(2000, 5000)
         data = (prose(head) + record + prose(dist - len(record)) + record + prose(g.randrange(500, 3000))).encode('ascii')
-        return {'kind': 'bytes', 'hex': data.hex(), 'cls': cls, 'gen': seed}
+        return {'kind': 'bytes', 'hex': data.hex(), 'cls': cls, 'gen': seed, 'size': big}
     if cls == 'big-text':
         seed = rng.randrange(2**32)
-        return {'kind': 'str', 'text': (u'Zeile %d äöü ✓\n' % seed) * (big // 24), 'cls': cls, 'gen': seed}
+        return {'kind': 'str', 'text': (u'Zeile %d äöü ✓\n' % seed) * (big // 24), 'cls': cls, 'gen': seed, 'size': big}
     raise ValueError(cls)
 
 
@@ -907,7 +971,7 @@ def run_sequences(ctx, pgpy, d, K, fast, blobs):
 def replay(ctx, case):
     """re-run one recorded case on the implementation (+ model); True if it still fails"""
     pgpy = load_repo()
-    d = Driver('c20', oracles={'compress': o_compress, 'decompress': o_decompress})
+    d = GuardedDriver('c20', oracles={'compress': o_compress, 'decompress': o_decompress})
     tmp = tempfile.mkdtemp(prefix='c20_')
     try:
         K = Keys(ctx)
@@ -939,7 +1003,9 @@ def replay(ctx, case):
             else:
                 got = 'ERR'
             return got != d.call('litparse', hn(data[1]), hx(data[2:]))
-        if 'content' in case and 'hex' in case['content'] or 'text' in case.get('content', {}):
+        if 'content' in case:
+            case = dict(case, content=regen_content(case['content']))
+        if 'content' in case and ('hex' in case['content'] or 'text' in case['content']):
             check_export(ctx, pgpy, d, K, {k: v for k, v in case.items() if k not in ('got', 'want', 'how', 'impl', 'model')}, tmp)
             return len(ctx.violations) + len(ctx.known_hit) > before
         return True
